@@ -1,6 +1,7 @@
 package main
 
 import (
+	"sync/atomic"
 	"fmt"
 	"path/filepath"
 	"reflect"
@@ -36,6 +37,7 @@ func (in *injector) onEvent(ev *FSEvent) (bool, int, error) {
 	}
 	e := *ev
 	in.fired = &e
+	atomic.StoreInt32(&faultInjectedInCase, 1)
 	switch ev.Op {
 	case "write":
 		n := 0
@@ -430,7 +432,7 @@ func runC12(c *CaseCtx) {
 
 func init() {
 	register(&Check{
-		ID: "C12", Level: "fault_enumeration",
+		ID: "C12", Level: "fault_enumeration", NoLeakMonitor: true,
 		NCases: func(t string) int { return tier(t, 160, 6000) },
 		Run:    runC12,
 		Rule: "case = seeded history in which transactions end in: fn error after j operations (every j), explicit Rollback, an oversized entry at the first/middle/last position, an injected I/O error (write with and without a partial write left behind, open, truncate, close) at the j-th file operation of the Commit for j = 1,2,... until the Commit gets through, an injected sync error (outcome in doubt: all-or-nothing), " +
